@@ -559,13 +559,20 @@ def additivity(ctx, rng):
     R = ctx.R
     tmp = ctx.path('.add')
     os.mkdir(tmp)
-    A = small_bank(rng, rng.randint(1, 3), cont=True)
-    B = small_bank(rng, rng.randint(1, 3), cont=True)
+    what = rng.choice(['cli', 'grammar', 'analysis', 'transitions', 'read',
+                       'read'])
+    cont = what != 'analysis'
+    A = small_bank(rng, rng.randint(1, 3), cont=cont)
+    B = small_bank(rng, rng.randint(1, 3), cont=cont)
+    if what == 'read' and rng.random() < 0.15:
+        # files longer than any read buffer (> 8192 characters together)
+        A = small_bank(rng, rng.randint(40, 70), cont=True)
+        B = small_bank(rng, rng.randint(40, 70), cont=True)
+    for j, s in enumerate(A):
+        s['sid'] = j + 1
     for j, s in enumerate(B):
         s['sid'] = len(A) + j + 1
     case = {'kind': 'additive', 'A': A, 'B': B}
-    what = rng.choice(['cli', 'grammar', 'analysis', 'transitions', 'read',
-                       'read'])
     case['what'] = what
     case['fmt'] = rng.choice(['export', 'brackets', 'discobrackets',
                               'tigerxml'])
@@ -645,13 +652,32 @@ def additive_case(ctx, case, tmp):
             return
     elif what == 'analysis':
         import re
+        from collections import Counter
+
+        def table(report):
+            """totals and every 'Gap degree k: n trees|nodes' row"""
+            t = Counter()
+            mt = re.search(r'(\d+) trees, (\d+) nodes', report)
+            t['trees'], t['nodes'] = int(mt.group(1)), int(mt.group(2))
+            for k_, n_, unit in re.findall(
+                    r'Gap degree\s+(\d+):\s+(\d+) (trees|nodes)', report):
+                t[(unit, int(k_))] += int(n_)
+            return +t
+        # statistics of a concatenation are the sums, in either order
         outs = [run({'k': 'analysis', 'bank': bank, 'task': 'GapDegree'})
-                for bank in (A, B, A + B)]
-        nums = [tuple(int(x) for x in re.search(r'(\d+) trees, (\d+) nodes',
-                                                 o).groups()) for o in outs]
-        if (nums[0][0] + nums[1][0], nums[0][1] + nums[1][1]) != nums[2]:
-            ctx.fail('C18:not-additive:analysis', case, repr(nums))
+                for bank in (A, B, A + B, B + A)]
+        try:
+            tabs = [table(o) for o in outs]
+        except Exception as e:
+            ctx.fail('C18:analysis-report-unreadable', case, repr(e))
             return
+        for name, got in (('A+B', tabs[2]), ('B+A', tabs[3])):
+            if tabs[0] + tabs[1] != got:
+                ctx.fail('C18:not-additive:analysis', case,
+                         'GapDegree report of %s is not the sum of the '
+                         'reports of A and B: %r vs %r + %r'
+                         % (name, dict(got), dict(tabs[0]), dict(tabs[1])))
+                return
     else:
         system = case['system']
         argv = ['transitions', '{src}', '{dest}', system, '--transform',
